@@ -3,11 +3,19 @@ use std::str::FromStr;
 use crate::error::ZervError;
 use crate::version::zerv::Zerv;
 
+/// RON reader settings for Zerv objects. Custom variables may nest as deeply as serde_json lets
+/// them in (127 levels, two RON levels each); with ron's default limit of 128 zerv refused objects
+/// it had emitted itself.
+pub(crate) fn zerv_ron_options() -> ron::Options {
+    ron::Options::default().with_recursion_limit(320)
+}
+
 impl FromStr for Zerv {
     type Err = ZervError;
 
     fn from_str(s: &str) -> Result<Self, Self::Err> {
-        ron::de::from_str(s)
+        zerv_ron_options()
+            .from_str(s)
             .map_err(|e| ZervError::InvalidVersion(format!("Invalid Zerv RON format: {e}")))
     }
 }
